@@ -198,7 +198,7 @@ func ruleText(prop string) string {
 	case "C09":
 		return "every history of calls {Add, NewAddition+Close, CompactAll, Clean, auto-compacting Add, retry of the last failed Add} by 2-3 handles on one directory up to the stated depth; staleness is decided by the reference notion (handle's table names != tables.list). Non-trivial = a write was attempted through a stale handle"
 	case "C12":
-		return "breadth-first search over reachable (live set, tombstone set) states; in every state every transaction of <=2 records (add or delete) over 6 valid and 5 invalid names is submitted through Add and through every two-table split of an Addition, plus CompactAll; accept/reject must equal the reference rule and the live set must stay conflict-free. Non-trivial = the transaction touches a name with a prefix relation to a live or added name"
+		return "breadth-first search over reachable (live set, tombstone set) states; in every state every transaction of <=2 records (add or delete) over 7 valid names (one of them, a-, sorts between a and a/b) and 5 invalid names is submitted through Add and through every two-table split of an Addition (stopping at, or going on after, a refused table), every three-record transaction (quick: over 5 names; thorough: over all 7) through Add and as three one-record tables of one Addition that goes on after a refused table (4 orders), plus CompactAll; the quick tier expands states with at most one tombstone (transitions into the others are executed and checked), the thorough tier all states; accept/reject must equal the reference rule and the live set must stay conflict-free. Non-trivial = the transaction touches a name with a prefix relation to a live or added name"
 	case "C13":
 		return "every stack of <=3 tables with reflog entries of 2 refs at times/update indices from a grid (several per ref, across tables, with log tombstones) x every expiry configuration whose three limits range over {unset, below, equal to each data value, between, above}: CompactAll(cfg) on the real Stack must leave exactly the entries the reference rule keeps, byte-identical, and the refs untouched. Non-trivial = at least one entry is dropped and at least one is kept"
 	}
